@@ -79,3 +79,189 @@ def action_fn(prog, crate_mod, k):
     if f is None:
         raise AnchorMissing('generated action %s' % p)
     return f
+
+
+# ---------------------------------------------------------------------------------------------------------------
+# E3: symbolic expansion of the generated reduce actions. LALRPOP expands `?`, `*`, `+`, `@L`, `@R` and inlined
+# nonterminals into one production per combination and one wrapper action per production; the wrapper feeds the
+# grammar author's action ("user action") with the production's symbols, with synthesised values for absent or
+# macro-made symbols. Wrappers are emitted from a fixed template (let __startN / __endN / __tempN, final call), which
+# is parsed here; anything that does not fit the template raises AnchorMissing.
+
+BUILTIN = [
+    (r'^Some\(__0\)$', 'some'), (r'^None$', 'none'), (r'^alloc::vec!\[\]$', 'nil'), (r'^alloc::vec!\[__0\]$', 'one'),
+    (r'^\{ let mut v = v; v\.push\(e\); v \}$', 'push'), (r'^\*__lookahead$', 'lookahead'), (r'^\*__lookbehind$', 'lookbehind'),
+    (r'^\(__0, __1\)$', 'pair'),
+]
+
+
+class Actions:
+    def __init__(self, gen):
+        self.gen = gen
+        self.acts = {}
+        chunks = re.split(r'\nfn __action(\d+)<', gen.text)
+        for i in range(1, len(chunks), 2):
+            n = int(chunks[i])
+            body = chunks[i + 1]
+            m = re.match(r"(.*?)>\(\n(.*?)\n\) -> (.*?)\n\{\n(.*?)\n\}\n", body, re.S)
+            if not m:
+                m = re.match(r"(.*?)>\(\n(.*?)\n\)\n\{\n(.*?)\n?\}\n", body, re.S)
+                if not m:
+                    raise AnchorMissing('shape of generated action %d in %s' % (n, gen.name))
+                params, ret, code = m.group(2), '()', m.group(3)
+            else:
+                params, ret, code = m.group(2), m.group(3), m.group(4)
+            ps = []
+            for line in params.split('\n'):
+                line = line.strip().rstrip(',')
+                if not line:
+                    continue
+                pm = re.match(r'^\(_, (mut )?(\w+), _\): \((.*)\)$', line)
+                if pm:
+                    ps.append({'name': pm.group(2), 'triple': True})
+                    continue
+                pm = re.match(r'^(\w+): (.*)$', line)
+                if not pm:
+                    raise AnchorMissing('parameter %r of generated action %d' % (line, n))
+                ps.append({'name': pm.group(1), 'triple': pm.group(2).startswith('(')})
+            flat = re.sub(r'\s+', ' ', code.strip())
+            kind = 'user'
+            if re.search(r'\b__temp\d+\b', flat) or re.match(r'^__action\d+\( \w+,', flat):
+                kind = 'wrapper'
+            else:
+                for pat, k in BUILTIN:
+                    if re.match(pat, flat):
+                        kind = k
+                names = [p['name'] for p in ps[1:]]
+                if kind == 'user' and flat in names and names.count(flat) == 1 and re.match(r'^\w+$', flat):
+                    kind = 'sel:%d' % names.index(flat)     # `<>` / `<x>`: the value of one symbol, unchanged
+            self.acts[n] = {'n': n, 'params': ps, 'ret': ret, 'code': code, 'flat': flat, 'kind': kind}
+        if len(self.acts) < 20:
+            raise AnchorMissing('generated actions in %s' % gen.name)
+
+    # terms:
+    #   ('sym', i)                        the (start, value, end) triple of production symbol i
+    #   ('trip', start, value, end)       a synthesised triple
+    #   ('loc', i, 's'|'e')               start / end location of production symbol i
+    #   ('call', n, [terms])              value computed by base action n
+    def _start(self, t):
+        return ('loc', t[1], 's') if t[0] == 'sym' else t[1]
+
+    def _end(self, t):
+        return ('loc', t[1], 'e') if t[0] == 'sym' else t[3]
+
+    def expand(self, n, args):
+        a = self.acts.get(n)
+        if a is None:
+            raise AnchorMissing('generated action %d' % n)
+        if a['kind'] != 'wrapper':
+            return ('call', n, list(args))
+        env = {}
+        names = [p['name'] for p in a['params'][1:]]
+        if not args and names == ['__lookbehind', '__lookahead']:
+            env = {'__lookbehind': ('here', 'behind'), '__lookahead': ('here', 'ahead')}     # wrapper of an empty production
+        else:
+            for p, t in zip(a['params'][1:], args):
+                env[p['name']] = t
+            if len(names) != len(args):
+                raise AnchorMissing('arity of generated action %d' % n)
+        stmts = [s.strip() for s in re.split(r';\s*\n', a['code'].strip())]
+        final = None
+        for s in stmts:
+            s1 = re.sub(r'\s+', ' ', s)
+            m = re.match(r'^let (__(?:start|end)\d+) = (__\w+)\.(0|2)$', s1)
+            if m:
+                src = env.get(m.group(2))
+                if src is None:
+                    raise AnchorMissing('unknown %s in action %d' % (m.group(2), n))
+                env[m.group(1)] = self._start(src) if m.group(3) == '0' else self._end(src)
+                continue
+            m = re.match(r'^let (__(?:start|end)\d+) = \*(__lookbehind|__lookahead)$', s1)
+            if m:
+                env[m.group(1)] = env[m.group(2)]
+                continue
+            m = re.match(r'^let (__temp\d+) = \((__start\d+), (__temp\d+), (__end\d+)\)$', s1)
+            if m:
+                env[m.group(1)] = ('trip', env[m.group(2)], env[m.group(3)], env[m.group(4)])
+                continue
+            m = re.match(r'^(?:let (__temp\d+) = )?__action(\d+)\( \w+,? ?(.*?),? ?\)$', s1)
+            if m:
+                argv = []
+                for x in [y.strip() for y in m.group(3).split(',') if y.strip()]:
+                    x = x.lstrip('&')
+                    if x not in env:
+                        raise AnchorMissing('unknown %s in action %d' % (x, n))
+                    argv.append(env[x])
+                v = self.expand(int(m.group(2)), argv)
+                if m.group(1):
+                    env[m.group(1)] = v
+                else:
+                    final = v
+                continue
+            raise AnchorMissing('statement %r of generated wrapper action %d' % (s1[:80], n))
+        if final is None:
+            raise AnchorMissing('final call of generated wrapper action %d' % n)
+        return final
+
+    # values: semantic reading of a term
+    #   ('S', i)  value of symbol i;  ('some', v) / ('none',);  ('list', [v..]);  ('push', list, v)
+    #   ('at', loc)  a location;  ('pair', a, b);  ('U', n, [v..]) result of grammar-author action n
+    def value(self, t):
+        if t[0] == 'sym':
+            return ('S', t[1])
+        if t[0] == 'trip':
+            return self.value(t[2])
+        if t[0] == 'loc':
+            return ('at', t)
+        if t[0] == 'here':
+            return t
+        if t[0] == 'call':
+            a = self.acts[t[1]]
+            k = a['kind']
+            av = [self.value(x) for x in t[2]]
+            if k == 'some':
+                return ('some', av[0])
+            if k == 'none':
+                return ('none',)
+            if k == 'nil':
+                return ('list', [])
+            if k == 'one':
+                return ('list', [av[0]])
+            if k == 'push':
+                return ('list', av[0][1] + [av[1]]) if av[0][0] == 'list' else ('push', av[0], av[1])
+            if k == 'lookahead':
+                return av[1] if av else ('here', 'ahead')
+            if k == 'lookbehind':
+                return av[0] if av else ('here', 'behind')
+            if k == 'pair':
+                return ('pair', av[0], av[1])
+            if k.startswith('sel:'):
+                return av[int(k[4:])]
+            return ('U', t[1], av)
+        raise AnchorMissing('term %r' % (t,))
+
+    def production_value(self, p):
+        return self.value(self.expand(p['action'], [('sym', i) for i in range(len(p['syms']))]))
+
+
+def show(v, syms):
+    k = v[0]
+    if k == 'S':
+        return 'S%d:%s' % (v[1], syms[v[1]])
+    if k == 'some':
+        return 'Some(%s)' % show(v[1], syms)
+    if k == 'none':
+        return 'None'
+    if k == 'list':
+        return '[%s]' % ', '.join(show(x, syms) for x in v[1])
+    if k == 'push':
+        return 'push(%s, %s)' % (show(v[1], syms), show(v[2], syms))
+    if k == 'at':
+        return '%s(S%d:%s)' % ('start' if v[1][2] == 's' else 'end', v[1][1], syms[v[1][1]])
+    if k == 'pair':
+        return '(%s, %s)' % (show(v[1], syms), show(v[2], syms))
+    if k == 'here':
+        return '@' + v[1]
+    if k == 'U':
+        return 'A%d(%s)' % (v[1], ', '.join(show(x, syms) for x in v[2]))
+    return repr(v)
